@@ -28,6 +28,9 @@ def run(ctx):
     if not behs:
         raise vlib.Broken("no behaviours generated")
     replay_family(ctx, "var", behs, exhaustive_depth=depth)
+    # the same at scale (Scale.tla bound to 64 variables: groups, one shared builder / a builder each, cancel one by one)
+    from checks import life
+    life.scale(ctx, 60, 1500, family="scale-var")
     ctx.cov["exhaustive"] = True
     ctx.cov["rule"] = ("every history of Set/Apply/Cancel/Reset of length %d over 1 builder x 2 variables x 3 values "
                        "(exhaustive) plus seeded random histories of length 12 over 2 builders x 3 variables, each replayed "
